@@ -49,6 +49,8 @@ func (e *Engine) registerIntrinsics() {
 		fr.ip++
 		e.pushFrame(st, cl.Fn, nil, cl.Binds)
 		st.top().discard = true
+		st.top().native = "once"
+		st.onceDepth++
 		return pushedFrame{}
 	}
 	n["strings.Split"] = func(e *Engine, st *State, a []Value, ci ssa.CallInstruction) Value {
@@ -229,10 +231,17 @@ func (e *Engine) registerIntrinsics() {
 	n["(reflect.Value).SetInt"] = setInt
 	n["(reflect.Value).SetUint"] = setInt
 	nop := func(e *Engine, st *State, a []Value, ci ssa.CallInstruction) Value { return nil }
-	n["(*sync.Mutex).Lock"] = nop
-	n["(*sync.Mutex).Unlock"] = nop
-	n["(*sync.RWMutex).Lock"] = nop
-	n["(*sync.RWMutex).Unlock"] = nop
+	lock := func(e *Engine, st *State, a []Value, ci ssa.CallInstruction) Value { st.lockDepth++; return nil }
+	unlock := func(e *Engine, st *State, a []Value, ci ssa.CallInstruction) Value {
+		if st.lockDepth > 0 {
+			st.lockDepth--
+		}
+		return nil
+	}
+	n["(*sync.Mutex).Lock"] = lock
+	n["(*sync.Mutex).Unlock"] = unlock
+	n["(*sync.RWMutex).Lock"] = lock
+	n["(*sync.RWMutex).Unlock"] = unlock
 	n["(*sync.RWMutex).RLock"] = nop
 	n["(*sync.RWMutex).RUnlock"] = nop
 	n["runtime.KeepAlive"] = nop
